@@ -673,7 +673,7 @@ def run_traced(flavour, ops, scratch=None, inject=None, timeout=120, keep=False,
         # worker-mode runs (the fault / kill legs) are traced from AFTER the process start-up: strace counts
         # `when=N` per thread and per system call from the moment it traces, and the loader's and runtime's own
         # openat / read / stat calls on the main thread would otherwise use up the first few N of every sweep
-        attach = env.get("DRIVE_WORKER") == "1" and os.environ.get("VERIF_ATTACH", "0") == "1"
+        attach = env.get("DRIVE_WORKER") == "1" and os.environ.get("VERIF_ATTACH", "1") == "1"
     timed_out = False
     st = None
     if attach:
